@@ -591,7 +591,9 @@ def to_src(v, mat: Materialised | None = None) -> str:
 LOOKALIKE_STRINGS = ["1", "1.0", "null", "None", "true", "True", "false", "[1]", '{"a":1}', "2020-01-01",
                      "PT1S", "12:00:00", "ab", "a", "", " ", "\t", "1,2", "(1, 2)", "-1", "1e5", "0x10", "nan",
                      "inf", "Infinity", '"quoted"', "'q'", "\x00", "é", "\u2028", "日本", "P1D", "[]", "{}", "()",
-                     "1_000", "0", "00", "+1", "2020-01-01T00:00:00+00:00", "a b", "_k", "__", "_", "_private"]
+                     "1_000", "0", "00", "+1", "2020-01-01T00:00:00+00:00", "a b", "_k", "__", "_", "_private",
+                     # texts of numbers of *another* number class, in other bases, as a ratio
+                     "1.5", "1.0", "-0.25", "2.", ".5", "1E3", "0x1F", "0b11", "0o7", "1/2", "-3/4", "1e-3", "٣"]
 
 
 def _tz():
@@ -754,6 +756,9 @@ def values(spec, mat: Materialised, *, budget: int = 3, json64: bool = False, ma
                         alts.append(V(c).map(lambda x, sc=sc: str(plain_wire(sc, x, mat))))
                     except _Exhausted:
                         pass
+                if sc["k"] == "scalar" and sc["t"] in ("int", "float", "Decimal", "Fraction"):
+                    # ... and texts of numbers a sibling number class does NOT read ("1.5" next to int, "1/2" next to float)
+                    alts.append(st.sampled_from(["1.5", "1.0", "1e3", "-0.25", "2.", ".5", "0x1F", "1/2", "-3/4", "1_0", "1e-3", "0b11"]))
                 if sc["k"] == "enum":
                     # ... and the *names* of an Enum sibling's members (a text is a member's value or it is no member)
                     alts.append(st.sampled_from([n for n, _ in sc["members"]]))
@@ -1451,7 +1456,13 @@ def scalar_union_specs(draw, mods=1):
     ms = []
     for t in draw(st.lists(st.sampled_from(pool), min_size=n, max_size=n, unique=True)):
         ms.append(S(t))
-    if draw(st.integers(0, 2)) == 0:
+    if draw(st.integers(0, 3)) == 0:
+        # a number class declared before `str`: every text is a candidate of the number member first
+        num = draw(st.sampled_from(["int", "float", "Decimal", "Fraction"]))
+        ms = [m for m in ms if m["t"] not in (num, "str")][:n - 2]
+        ms.insert(draw(st.integers(0, len(ms))), S(num))
+        ms.append(S("str"))
+    elif draw(st.integers(0, 2)) == 0:
         ms[draw(st.integers(0, len(ms) - 1))] = draw(st.one_of(enum_specs(names, mod=0), literal_specs()))
     if draw(st.integers(0, 2)) == 0:
         ms.insert(draw(st.integers(0, len(ms))), dict(NONE))
